@@ -57,7 +57,7 @@ def _phot_make():
     from photutils.background import LocalBackground
     from photutils.detection import DAOStarFinder
     from photutils.psf import CircularGaussianPRF, PSFPhotometry, SourceGrouper
-    return PSFPhotometry(CircularGaussianPRF(fwhm=3.0), (7, 7), grouper=SourceGrouper(7.0), finder=DAOStarFinder(20.0, 3.0),
+    return PSFPhotometry(CircularGaussianPRF(fwhm=3.0), (7, 7), grouper=SourceGrouper(7.0), finder=DAOStarFinder(5.0, 3.0),
                          localbkg_estimator=LocalBackground(6, 10), aperture_radius=4)
 
 
@@ -75,8 +75,33 @@ def _iter_make():
     from photutils.background import LocalBackground
     from photutils.detection import DAOStarFinder
     from photutils.psf import CircularGaussianPRF, IterativePSFPhotometry, SourceGrouper
-    return IterativePSFPhotometry(CircularGaussianPRF(fwhm=3.0), (7, 7), DAOStarFinder(20.0, 3.0), grouper=SourceGrouper(7.0),
+    return IterativePSFPhotometry(CircularGaussianPRF(fwhm=3.0), (7, 7), DAOStarFinder(5.0, 3.0), grouper=SourceGrouper(7.0),
                                   localbkg_estimator=LocalBackground(6, 10), aperture_radius=4, maxiters=2)
+
+
+def _images_setup(kind):
+    """an object that has been called once; the requests are the image builders in either include_localbkg setting"""
+    from astropy.table import Table
+    d1, p1 = _scene(1)
+
+    def mk():
+        from photutils.background import LocalBackground
+        from photutils.detection import DAOStarFinder
+        from photutils.psf import CircularGaussianPRF, IterativePSFPhotometry, PSFPhotometry, SourceGrouper
+        if kind == 'psf':
+            o = PSFPhotometry(CircularGaussianPRF(fwhm=3.0), (7, 7), grouper=SourceGrouper(7.0), localbkg_estimator=LocalBackground(6, 10), aperture_radius=4)
+            t = Table(); t['x'] = [p[0] + 0.2 for p in p1]; t['y'] = [p[1] - 0.1 for p in p1]
+            o(d1, init_params=t)
+        else:
+            o = IterativePSFPhotometry(CircularGaussianPRF(fwhm=3.0), (7, 7), DAOStarFinder(5.0, 3.0), grouper=SourceGrouper(7.0), localbkg_estimator=LocalBackground(6, 10),
+                                       aperture_radius=4, maxiters=1 if kind == 'iter_new1' else 2, mode='all' if kind == 'iter_all' else 'new')
+            o(d1)
+        return o
+    reqs = {'model_lb': lambda o: o.make_model_image(d1.shape, psf_shape=(9, 9), include_localbkg=True),
+            'model': lambda o: o.make_model_image(d1.shape, psf_shape=(9, 9), include_localbkg=False),
+            'resid_lb': lambda o: o.make_residual_image(d1, psf_shape=(9, 9), include_localbkg=True),
+            'resid': lambda o: o.make_residual_image(d1, psf_shape=(9, 9), include_localbkg=False)}
+    return mk, reqs
 
 
 def _finder_requests():
@@ -206,6 +231,8 @@ def kinds(quick):
         'IRAFStarFinder_xycoords': dict(make=_finder_make('iraf_xy'), reqs=fr, config=None, depth=3, subset=['img1', 'img2', 'img1_masked']),
         'Ellipse': dict(make=emk, reqs=ereq, config=None, depth=2, subset=['free', 'fixcen', 'fixpa'] + ([] if quick else ['one'])),
         'GriddedPSFModel': dict(make=gmk, reqs=greq, config=None, depth=3, subset=list(greq)),
+        **{f'images_{k}': dict(make=_images_setup(k)[0], reqs=_images_setup(k)[1], config=None, depth=2, subset=['model_lb', 'model', 'resid_lb', 'resid'])
+           for k in ('psf', 'iter_new1', 'iter_new2', 'iter_all')},
         'SourceFinder': dict(make=mk_sf, reqs=sf_req, config=None, depth=2, subset=list(sf_req)),
         'SourceGrouper': dict(make=mk_gr, reqs=gr_req, config=None, depth=3, subset=list(gr_req)),
         'LocalBackground': dict(make=mk_lb, reqs=lb_req, config=None, depth=3, subset=list(lb_req)),
@@ -231,6 +258,9 @@ def replay(args):
             fresh[r] = digest(K['reqs'][r](K['make']()))
         except Exception as e:  # noqa
             fresh[r] = 'raise:' + type(e).__name__
+    for r, v in fresh.items():      # every request of the catalogue is valid: a fresh object must serve it
+        if v.startswith('raise:') and r not in K.get('may_raise', ()):
+            out.append(('valid_request_raises_on_fresh_object', {'obj': kind, 'request': r, 'exc': v}, {'sequence': seq}))
     obj = K['make']()
     cfg0 = digest(K['config'](obj)) if K['config'] else None
     for k, r in enumerate(seq):
